@@ -407,6 +407,11 @@ func (w *walker) stmt(s ast.Stmt) {
 		// a background goroutine is a thread of its own: its body becomes a pseudo-method "<method>.go<k>" that starts unlocked
 		if fl, ok := v.Call.Fun.(*ast.FuncLit); ok {
 			w.goLits = append(w.goLits, fl)
+		} else if s := normRecv(exprStr(v.Call.Fun)); strings.HasPrefix(s, "db.") && strings.Count(s, ".") == 1 {
+			// `go db.method()`: the method's body is that thread
+			if fd, ok := funcs["DB."+strings.TrimPrefix(s, "db.")]; ok {
+				w.goLits = append(w.goLits, &ast.FuncLit{Type: fd.Type, Body: fd.Body})
+			}
 		}
 	case *ast.SwitchStmt:
 		w.stmt(v.Init)
